@@ -8,6 +8,7 @@ That the real pipeline computes `eval` is NOT proved: it is checked by different
 -/
 import NeverModel.Lemmas.SrcTop
 import NeverModel.Lemmas.SrcRange
+import NeverModel.Lemmas.SrcMod
 namespace Never.Src.C02
 open Never.Src
 
@@ -435,6 +436,15 @@ theorem slice_bound_names (n : Nat) (ctx : Ctx) (env : Env) (x : Name) (c p so a
     simp only [evalE, hx, bind_eq, M.bind, load, hc, dimValue, hp, hs, h1, if_false, rngBounds_ok s ro lf lt a b hr hf ht]
     rfl
 
+/-- **An extent name ignores shadowing of the parameter's NAME.**  `D` of `a[D]` holds a reference to the parameter's
+CELL: whatever is bound later under other names — in particular a `let a = …`, a match binding or a loop variable that
+shadows the parameter's own name `a` — a use of `D` evaluates exactly as before (and, by `extent_name_is_read_at_use`,
+reads the extent of the array in that cell). -/
+theorem extent_name_ignores_shadowing_of_the_parameter_name (n : Nat) (ctx : Ctx) (env : Env) (x pn : Name) (l2 : Loc)
+    (s : St) (hne : x ≠ pn) :
+    evalE (n + 1) ctx ((pn, l2) :: env) (.dimVar x) s = evalE (n + 1) ctx env (.dimVar x) s := by
+  simp only [evalE, lookup, hne, if_false]
+
 /-- **A nil array, range or slice raises `nil_pointer` where one of its names is used** (not at the call; a callee that
 never uses the names runs normally) -/
 theorem name_of_nil_parameter_raises (n : Nat) (ctx : Ctx) (env : Env) (x : Name) (c p : Loc) (k : Nat) (s : St) (v : Val)
@@ -550,6 +560,40 @@ theorem eval_order_pipe_fault (n : Nat) (ctx : Ctx) (env : Env) (l fe : Expr) (a
   constructor
   · intro h; simp only [evalE, bind_eq, M.bind, h]
   · intro h1 h2; simp only [evalE, bind_eq, M.bind, h1, h2]
+
+/-! ### modules (Model/SrcMod.lean: a separate layer — units are elaborated into one core program, `eval` runs it) -/
+
+/-- **A module is loaded once.**  However many units `use` it (directly, through several paths, repeatedly), a unit
+occurs once in the load order, so its items — and the side effects of its initialisers — occur once in the program. -/
+theorem module_loaded_once (us : List Mod.Unit) (main : Mod.Unit) : (Mod.loadOrder us main).Nodup :=
+  Mod.loadOrder_nodup us main
+
+/-- **A qualified name resolves in its unit.**  Elaboration gives the top-level items of unit `m` exactly the names `q m x`
+(`x` a top-level name of the unit as written, same order), by the LEXICAL renaming of C08 (`qualItems` is `rnItems`), so uses
+inside the unit follow their binders.  With a qualification that keeps units apart (`q m1 x = q m2 y → m1 = m2 ∧ x = y`; `m.x`
+for module names without dots), `q m1 x` is bound by unit `m1` iff `m1` declares `x`, and NEVER by another unit `m2`, whatever
+same-named items `m2` declares. -/
+theorem qualified_name_resolves_in_its_unit (q : Name → Name → Name)
+    (hq : ∀ m1 x m2 y, q m1 x = q m2 y → m1 = m2 ∧ x = y) (m1 m2 : Name) (items1 items2 : List Item) (x : Name) :
+    Mod.itemBinders (Mod.qualItems q m1 items1) = (Mod.itemBinders items1).map (q m1) ∧
+    (q m1 x ∈ Mod.itemBinders (Mod.qualItems q m1 items1) ↔ x ∈ Mod.itemBinders items1) ∧
+    (m1 ≠ m2 → q m1 x ∉ Mod.itemBinders (Mod.qualItems q m2 items2)) := by
+  refine ⟨Mod.itemBinders_qualItems q m1 items1, ?_, ?_⟩
+  · rw [Mod.itemBinders_qualItems, List.mem_map]
+    constructor
+    · rintro ⟨y, hy, h⟩
+      rw [(hq _ _ _ _ h).2] at hy; exact hy
+    · intro h; exact ⟨x, h, rfl⟩
+  · intro hne hmem
+    rw [Mod.itemBinders_qualItems, List.mem_map] at hmem
+    obtain ⟨y, _, h⟩ := hmem
+    exact hne (hq _ _ _ _ h).1.symm
+
+/-- qualification IS the lexical renaming of C08 (`rnItems`, the function `eval_alpha` is about) with the renaming that maps the
+unit's top-level binders — and, by resolution, their uses inside the unit, through nested functions and shadowing — to `q m x` and
+leaves every other binder alone: unit-local names are handled by the theory of renamings, not by string search -/
+theorem qualification_is_lexical_renaming (q : Name → Name → Name) (m : Name) (items : List Item) :
+    Mod.qualItems q m items = rnItems (Mod.qualNu q m (Mod.modDepths 0 items)) [] items := rfl
 
 /-! ### non-vacuity: closed programs evaluated by the kernel -/
 
@@ -714,6 +758,18 @@ example : (eval { recs := [], enums := [], funcs := [
 example : (eval { recs := [], enums := [], funcs := [
     .mk 0 "d" [{ name := "a", ty := .arr, dims := ["D"] }] .int (i 7) [.mk (some .nil_pointer) (.un .neg (i 3))],
     .mk 1 "main" [] .int (.call (.var "d") [.index (.arrNew [i 2] .arr) [i 0]]) []] } [] 30).int? = some 7 := by decide +kernel
+/-- `func f(k[cnt] : int) -> int { let k = 7; cnt }` applied to a 4-element array is 4: the `let k` does not change what
+`cnt` reads (`extent_name_ignores_shadowing_of_the_parameter_name`); `[cnt, 0] : int` holds the int 4 -/
+example : (eval { recs := [], enums := [], funcs := [
+    .mk 0 "f" [{ name := "k", ty := .arr, dims := ["cnt"] }] .int (.seq [.bind false "k" (i 7), .expr (.dimVar "cnt")]) [],
+    .mk 1 "main" [] .int (.call (.var "f") [arr4]) []] } [] 30).int? = some 4 := by decide +kernel
+example : (eval { recs := [], enums := [], funcs := [
+    .mk 0 "f" [{ name := "k", ty := .arr, dims := ["cnt"] }] .int
+      (.seq [.bind false "k" (i 7), .bind true "v" (.arrLit [2] [.dimVar "cnt", i 0] .int),
+        .expr (.assign (.index (.var "v") [i 1]) (i 5)), .expr (.bin .add (.index (.var "v") [i 0]) (.index (.var "v") [i 1]))]) [],
+    .mk 1 "main" [] .int (.call (.var "f") [arr4]) []] } [] 30).int? = some 9 := by decide +kernel
+example : evalE 1 {} [("k", 0), ("D", 13)] (.dimVar "D") stP = evalE 1 {} [("D", 13)] (.dimVar "D") stP :=
+  extent_name_ignores_shadowing_of_the_parameter_name 0 {} _ "D" "k" 0 stP (by decide)
 /-- the hypotheses of `comprehension_over_range_denotation` on a concrete store: cell 0 holds `to` = 1, cell 1 is the empty
 array object; from = 3: three new cells 2, 3, 4 hold 3, 2, 1 and the array object lists them -/
 private def stC : St := { mem := #[.int 1, .arrObj [0] #[]] }
@@ -748,6 +804,37 @@ example : (arrZip .add (some 0) (some 0) stA matches .ok (.arr (some 7)) _) = tr
   rw [(array_add_shape_conformance .add stA 0 0 [2] [2] _ _ rfl rfl).2]; rfl
 example : matMul (some 0) (some 1) stA = throwE .wrong_array_size stA :=
   (array_mul_shape_conformance stA 0 1 [2] [3] _ _ rfl rfl).2 (by rintro ⟨r1, c1, c2, h, _⟩; cases h)
+
+/-! modules -/
+
+private def getF (idn : Nat) : Func := .mk idn "get" [] .int (.var "X") []
+private def uA : Mod.Unit := { name := "ma", uses := ["mc"], recs := [], enums := [],
+                                        items := [.bind true "X" (.bin .add (.builtin .print [i 1]) (.var "mc.X")), .funcs [getF 1]] }
+private def uB : Mod.Unit := { name := "mb", uses := ["mc"], recs := [], enums := [],
+                                        items := [.bind true "X" (.builtin .print [i 2]), .funcs [getF 2]] }
+private def uC : Mod.Unit := { name := "mc", uses := [], recs := [], enums := [],
+                                        items := [.bind true "X" (.builtin .print [i 3]), .funcs [getF 3]] }
+private def uMain : Mod.Unit := { name := "", uses := ["ma", "mb"], recs := [], enums := [],
+                                        items := [.bind true "X" (i 100), .funcs [getF 4, .mk 5 "main" [] .int
+                                            (.bin .add (.bin .mul (.call (.var "ma.get") []) (i 100)) (.bin .add (.bin .mul (.call (.var "mb.get") []) (i 10)) (.call (.var "get") []))) []]] }
+/-- a shared module used from two places is loaded once, before its users: `mc, ma, mb` (`module_loaded_once`) -/
+example : Mod.loadOrder [uA, uB, uC] uMain = ["mc", "ma", "mb"] := by decide
+example : (Mod.loadOrder [uA, uB, uC] uMain).Nodup := module_loaded_once _ _
+/-- dependency order whatever the main unit's `use` order: `ma` uses `mc`, the main unit uses only `ma` -/
+example : Mod.loadOrder [uA, uC] { uMain with uses := ["ma"] } = ["mc", "ma"] := by decide
+/-- a `use` cycle is refused -/
+example : Mod.cyclic [{ uA with uses := ["mb"] }, { uB with uses := ["ma"] }] uMain = true := by decide
+example : Mod.cyclic [uA, uB, uC] uMain = false := by decide
+/-- every unit has its own `X` and `get`: the initialisers print 3 (once), 1, 2; `ma.get()` is 4 = 1 + mc.X, `mb.get()` is 2,
+the main unit's `get()` is 100: 4·100 + 2·10 + 100 = 520 (`qualified_name_resolves_in_its_unit`) -/
+example : (Mod.evalUnits uMain [uA, uB, uC] [] 40).map (·.out) = some [51, 13, 10, 49, 13, 10, 50, 13, 10] := by decide +kernel
+example : (Mod.evalUnits uMain [uA, uB, uC] [] 40).bind (·.int?) = some 520 := by decide +kernel
+example : Mod.itemBinders (Mod.qualItems Mod.qdot "ma" uA.items) = ["ma.X", "ma.get"] := by decide
+example : "ma.X" ∉ Mod.itemBinders (Mod.qualItems Mod.qdot "mb" uB.items) := by decide
+/-- a use of `X` inside `get` follows its binder: `func get() -> int { X }` of `ma` becomes `ma.get` reading `ma.X` -/
+example : Mod.qualItems Mod.qdot "ma" [.bind true "X" (i 1), .funcs [getF 1]]
+    = [.bind true "ma.X" (i 1), .funcs [.mk 1 "ma.get" [] .int (.var "ma.X") []]] :=
+  by rfl
 
 end Examples
 
